@@ -56,6 +56,8 @@ Proof.
   intros cfg lk now b pg pub req opts topic args kw LOK Hp. unfold publish.
   destruct (negb (valid_uri _ _ _)).
   { cbn [snd]. destruct (opt_bool opts "acknowledge"); [now apply to_att_one|apply to_att_nil]. }
+  destruct (publish_aborts cfg pub opts topic).
+  { cbn [snd]. now apply to_att_one. }
   destruct (opt_bool opts "disclose_me" && negb (c_disclose cfg)).
   { cbn [snd]. destruct (opt_bool opts "acknowledge"); [now apply to_att_one|apply to_att_nil]. }
   pose proof (pub_event_fold lk now pub (pg + 1) opts topic args kw (matching_subs b topic) b []) as F.
@@ -140,11 +142,11 @@ Proof.
   apply to_att_one. destruct (cw_call _ W _ _ E) as (-> & _). apply (ca_call _ _ A _ _ E).
 Qed.
 
-Lemma sync_yield_att : forall lk d callee req opts args kw,
+Lemma sync_yield_att : forall lk0 lk d callee req opts args kw,
     calls_core d -> calls_att lk d -> lk callee <> None ->
-    to_att lk (snd (sync_yield d callee req opts args kw)).
+    to_att lk (snd (sync_yield lk0 d callee req opts args kw)).
 Proof.
-  intros lk d callee req opts args kw W A Hc. unfold sync_yield.
+  intros lk0 lk d callee req opts args kw W A Hc. unfold sync_yield. cbv zeta.
   destruct (cget (d_invs d) (callee, req)) as [inv|].
   - assert (E : forall dd, d_calls (if opt_bool opts "progress" then d
                                    else d_set_invs (cancel_timer d (inv_timer inv)) dd) = d_calls d).
@@ -152,7 +154,10 @@ Proof.
     match goal with |- context [cget (d_calls ?D) (inv_call inv)] =>
       replace (d_calls D) with (d_calls d) by (symmetry; apply E) end.
     destruct (cget (d_calls d) (inv_call inv)) as [caller|] eqn:Ec; [|apply to_att_nil].
-    apply to_att_one. destruct (cw_call _ W _ _ Ec) as (-> & _). apply (ca_call _ _ A _ _ Ec).
+    assert (Hcaller : lk caller <> None).
+    { destruct (cw_call _ W _ _ Ec) as (-> & _). apply (ca_call _ _ A _ _ Ec). }
+    repeat match goal with |- context [if ?c then _ else _] => destruct c end; cbn [snd app];
+      repeat (apply to_att_cons; [assumption|]); apply to_att_nil.
   - cbn [snd]. destruct (opt_bool opts "progress"); [now apply to_att_one|apply to_att_nil].
 Qed.
 
@@ -337,13 +342,13 @@ Proof.
     destruct (meta_call r proc details args kw oracle) as [[r1 resp] kills]. unfold realm_of, kills_of in *. cbn [fst snd] in *.
     pose proof (rw_dealer r1 W1) as Wd.
     assert (G : forall d o1, (d, o1) = match resp with
-                                        | MYield a k0 => sync_yield (r_dealer r1) meta_id req [] a k0
+                                        | MYield a k0 => sync_yield (lookup r1) (r_dealer r1) meta_id req [] a k0
                                         | MError e => sync_error (r_dealer r1) meta_id req [] e [] []
                                         end ->
                  to_att (lookup r1) o1 /\ realm_wf (r_set_dealer r1 d) /\ ids_below k (r_set_dealer r1 d)).
     { intros d o1 E. destruct resp.
-      - pose proof (sync_yield_att (lookup r1) (r_dealer r1) meta_id req [] args0 kw0 (wf_calls _ _ Wd) (wf_calls_att _ _ Wd) (meta_lookup r1)) as A.
-        pose proof (sync_yield_realm_wf r1 meta_id req [] args0 kw0 k W1 I1) as Y.
+      - pose proof (sync_yield_att (lookup r1) (lookup r1) (r_dealer r1) meta_id req [] args0 kw0 (wf_calls _ _ Wd) (wf_calls_att _ _ Wd) (meta_lookup r1)) as A.
+        pose proof (sync_yield_realm_wf r1 (lookup r1) meta_id req [] args0 kw0 k W1 I1) as Y.
         rewrite <- E in A, Y. cbn [fst snd] in *. auto.
       - pose proof (sync_error_att (lookup r1) (r_dealer r1) meta_id req [] err [] [] (wf_calls _ _ Wd) (wf_calls_att _ _ Wd)) as A.
         pose proof (sync_error_realm_wf r1 meta_id req [] err [] [] k W1 I1) as Y.
@@ -385,7 +390,10 @@ Proof.
   destruct m.
   - (* PUBLISH *)
     cbn [handle]. pose proof (publish_att (r_cfg r) (lookup r) (r_now r) (r_broker r) (r_pubgen r) s req opts topic args kw LOK Hsid) as P.
-    destruct (publish _ _ _ _ _ _ _ _ _ _ _) as [[b pg] o]. exact P.
+    destruct (publish _ _ _ _ _ _ _ _ _ _ _) as [[b pg] o]. cbn [snd] in P.
+    destruct (publish_aborts _ _ _ _); [|exact P].
+    pose proof (leave_att r (s_id s) k W I) as L. destruct (leave r (s_id s)) as [r1 o1]. cbn [snd] in *.
+    now apply to_att_app.
   - (* SUBSCRIBE *)
     destruct (handle_wf r s (CSubscribe req opts topic) oracle k W I Hk Hs) as [W' _].
     cbn [handle] in *.
@@ -461,8 +469,13 @@ Proof.
     destruct (cancel _ _ _ _ _) as [d o]. exact A.
   - (* YIELD *)
     cbn [handle].
-    pose proof (sync_yield_att (lookup r) (r_dealer r) (s_id s) req opts args kw (wf_calls _ _ Wd) (wf_calls_att _ _ Wd) Hsid) as A.
-    destruct (sync_yield _ _ _ _ _ _) as [d o]. exact A.
+    pose proof (sync_yield_att (lookup r) (lookup r) (r_dealer r) (s_id s) req opts args kw (wf_calls _ _ Wd) (wf_calls_att _ _ Wd) Hsid) as A.
+    pose proof (sync_yield_realm_wf r (lookup r) (s_id s) req opts args kw k W I) as Y.
+    destruct (sync_yield _ _ _ _ _ _ _) as [d o]. cbn [fst snd] in *.
+    destruct (yield_aborts _ _ _ _ _); [|exact A].
+    destruct Y as [Y1 Y2]. pose proof (leave_att (r_set_dealer r d) (s_id s) k Y1 Y2) as L.
+    destruct (leave (r_set_dealer r d) (s_id s)) as [r1 o1]. cbn [snd] in *.
+    apply to_att_app; [exact A|exact L].
   - (* ERROR *)
     cbn [handle]. destruct (negb (ty =? c_INVOCATION)).
     + pose proof (leave_att r (s_id s) k W I) as L. destruct (leave r (s_id s)) as [r1 o1]. cbn [snd] in *.
